@@ -289,8 +289,7 @@ Example C11_generated_example :
     (DriverInst.st_init (Driver.mkcfg 8 2 1 (-1) true true false)) = [(5, tt)].
 Proof. split; [split; reflexivity | vm_compute; reflexivity]. Qed.
 
-(* ===================================================================================================================
-   BEGIN family laststep: the number of steps main() derives from a run length (Proofs/LastStepP.v, Gen/Gen_LastStep.v)
+(* ============================================================================================================   BEGIN family laststep: the number of steps main() derives from a run length (Proofs/LastStepP.v, Gen/Gen_LastStep.v)
    =================================================================================================================== *)
 (** * The step counts of the legs add up
 
@@ -433,3 +432,56 @@ Proof. vm_compute. repeat split. Qed.
 (* ===================================================================================================================
    END family laststep
    =================================================================================================================== *)
+=======
+(** ** (strengthening F2-J) the stale initial normalisation at a restart is harmless BECAUSE the constructor leaves the
+    cached bunch charge equal to the bunch's share.  [HDF5File::readPhaseSpace] constructs a PhaseSpace without start
+    data (the constructor's own Gaussian, whatever the grid cuts off it) and reads the record over its grid; main()'s
+    initial `updateXProjection(); normalize();` then divides by the charges the constructor cached
+    (C11_start_state: start grid = [normW f0 stored], f0 = that cache).  Over the closed forms generated from
+    src/PS/PhaseSpace.cpp on this run (Gen/Gen_Moments.v: [gen_ctor_fresh] = the constructor's branch `data == nullptr`
+    - createFromProjections() - followed by the constructor's refresh sequence): *)
+From Inovesa Require Model.Moments Model.MomentsIR Gen.Gen_Moments Proofs.MomentsGenP Proofs.FreshCtorP.
+Module FreshCtor.
+Import Moments MomentsIR Gen_Moments MomentsGenP FreshCtorP.
+
+(** the object the record is read into is constructed without start data, and nothing but getData() is called on it
+    before it is handed to main() (generated from readPhaseSpace) *)
+Theorem C11_source_start_object_is_fresh :
+  Gen_H5Index.gen_read_ctor_passes_data = false /\ Gen_H5Index.gen_read_object_other_calls = 0.
+Proof. exact (conj eq_refl eq_refl). Qed.
+Print Assumptions C11_source_start_object_is_fresh.
+
+(** whatever the two projections the start distribution is the product of (any grid extent, any shift, any zoom), as
+    long as their product has a non-zero Simpson integral: the constructor leaves _filling[b] = _filling_set[b] for
+    every filled bunch - integral = share *)
+Theorem C11_fresh_constructor_charge_is_share :
+  forall (K : Fld) (pos : K -> bool) (g : geom K) (m : mst K) b,
+    0 <= b < gnb g -> pos (gfs g b) = true ->
+    charge_of K g (fun b x y => fmul (m_proj m 0 b x) (m_proj m 1 b y)) b <> f0 ->
+    m_fill (gen_ctor_fresh K (env_gen K pos g) m) b = gfs g b.
+Proof. exact fresh_ctor_filling_is_share. Qed.
+Print Assumptions C11_fresh_constructor_charge_is_share.
+
+(** ... hence `normalize()` with those cached charges leaves every cell of a record [G] read over the grid as stored
+    (exact arithmetic; in binary32: one rescale by share/measured-share, a factor within a few ulp of 1 - the bound
+    the program-level oracle applies to the first record of a continued run) *)
+Theorem C11_stale_normalisation_is_identity :
+  forall (K : Fld) (pos : K -> bool) (g : geom K) (m : mst K) (G : Z -> Z -> Z -> K) b x y,
+    0 <= b < gnb g -> 0 <= x < gn g -> 0 <= y < gn g ->
+    pos (gfs g b) = true -> gfs g b <> f0 ->
+    charge_of K g (fun b x y => fmul (m_proj m 0 b x) (m_proj m 1 b y)) b <> f0 ->
+    m_data (gen_normalize K (env_gen K pos g) (set_data K G (gen_ctor_fresh K (env_gen K pos g) m))) b x y = G b x y.
+Proof. exact stale_normalize_is_identity. Qed.
+Print Assumptions C11_stale_normalisation_is_identity.
+
+(** non-vacuity: a 3 x 3 single-bunch grid, both projections (1, 2, 1): the product integrates to 100/9 (not 1 - the
+    grid cuts the distribution), the constructor leaves the cached charge 1 *)
+Example C11_fresh_constructor_example :
+  let g := geomQ 3 1 (Q2Qc (-1)) (Q2Qc 1) (Q2Qc (-1)) (Q2Qc 1) [Q2Qc 1] in
+  let p := fun i : Z => if i =? 1 then Q2Qc 2 else Q2Qc 1 in
+  let m := mkMst QcF (fun _ _ _ => Q2Qc 0) (fun _ _ i => p i) (fun _ => Q2Qc 0) (Q2Qc 0) (fun _ _ _ => Q2Qc 0) in
+  posQc (gfs g 0) = true /\
+  this (charge_of QcF g (fun b x y => Qcmult (m_proj m 0 b x) (m_proj m 1 b y)) 0) = (100 # 9)%Q /\
+  this (m_fill (gen_ctor_fresh QcF (env_gen QcF posQc g) m) 0) = (1 # 1)%Q.
+Proof. vm_compute. repeat split. Qed.
+End FreshCtor.
